@@ -4,6 +4,7 @@
   Model of the repaired `Modules` (rollback of a failed load, cascading unload, re-check after the library load).
 -/
 import Tranp.Lemmas.SessionRef
+import Tranp.Lemmas.UnloadShape
 
 namespace Tranp.C04
 open Tranp Tranp.Session
@@ -72,6 +73,27 @@ theorem unload_clears (s : St L) (m : ModPath) : m ∉ (unload L E s m).mods ∧
     (with the node tables and memos they own), symbol table, completed list, memoised identities -/
 theorem unload_resets (s : St L) (m : ModPath) (hm : m ∈ s.mods) : Cleared L (unload L E s m) m :=
   unload_cleared L E s m hm
+
+open Tranp.Generated.UnloadShape in
+/-- The four `unload` methods as GENERATED from the sources (translate/gen_unload_shape.py: every statement of `Modules.unload`,
+    `ModuleLoader.unload`, `Entrypoints.unload`, `SymbolDB.unload` in source order; an early return, a new condition or another
+    statement breaks the tie), run as programs over the model state: the statements before the cascade are exactly the
+    hand-written removal of one module — entrypoint, completed flag, symbol keys, registry entry with the memoised identity,
+    each removed unconditionally -/
+theorem unload_one_generated (rec : St L → ModPath → St L) (s : St L) (m : ModPath) :
+    runList (modulesStmt L E rec m) (modulesUnload.filter (fun st => st ≠ .cascade)) s = some (unloadOne L s m) := by
+  rfl
+
+open Tranp.Generated.UnloadShape in
+/-- … and the whole generated `Modules.unload` (guard, loader, registry, cascade in the order of the source) with the model's
+    `unload` as its recursive call is the model's `unload` with one more level of fuel: the hand-written cascade satisfies the
+    recursion equation read from the source, for every state and module -/
+theorem unload_generated (f : Nat) (s : St L) (m : ModPath) :
+    (if m ∈ s.mods then runList (modulesStmt L E (unloadF L E f) m) modulesUnload s else some s) = some (unloadF L E (f + 1) s m) := by
+  by_cases h : m ∈ s.mods
+  · simp only [h, if_true, unloadF]
+    rfl
+  · simp only [h, if_false, unloadF]
 
 /-- … and of an unregistered module does nothing at all (modules.py:133) -/
 theorem unload_noop (s : St L) (m : ModPath) (hm : m ∉ s.mods) : unload L E s m = s :=
